@@ -52,6 +52,20 @@ cglue_impl_group!(Imp, Grp, { Tyop, Tbop });
 cglue_impl_group!(ImpY, Grp, { Tyop });
 cglue_impl_group!(ImpNone, Grp, {});
 
+/// a trait with non-empty temporary return storage (borrowed wrapped return) and an associated
+/// type declared BETWEEN methods, the leading method having a default body the implementor overrides
+#[cglue_trait]
+pub trait Tlend {
+    fn lead(&self) -> u64 { 0xDEF }
+    #[wrap_with_obj_ref(Tabc)]
+    type Lent: Tabc + 'static;
+    fn lend(&self) -> &Self::Lent;
+    fn tail(&self) -> u64;
+}
+impl Tlend for Imp { type Lent = Imp; fn lead(&self) -> u64 { self.v ^ 21 } fn lend(&self) -> &Imp { self } fn tail(&self) -> u64 { self.v ^ 22 } }
+cglue_trait_group!(GLend, { Tlend }, { Tabc });
+cglue_impl_group!(Imp, GLend, { Tabc });
+
 /// aliases whose order DIFFERS from the order of the underlying trait names: slots follow the alias
 /// (the name the vtable field and the C header carry)
 cglue_trait_group!(GAlias, { Tzed = Mzed, Tabc = Nabc }, { Tyop = Abop, Tbop = Zyop });
